@@ -284,3 +284,57 @@ for _tn in _ACCEPT:
             params={"self": ty.TObj("SemanticAnalyzer", only=("SemanticAnalyzer",)), "value_type": ty.TObj("ValueInfo", only=(_k,)), "expected_type_name": ty.TConcrete(_tn)},
             ensures=[(f"{_tn} accepts exactly {sorted(_ACCEPT[_tn])}", _vmt_post(_tn))],
             properties=("C14",), min_obligations=1, no_replay=True, note=f"declared {_tn}, value {_k}"))
+
+
+# =================================================================================================
+# SemanticAnalyzer.visit_FuncDecl: EVERY statement of a function body is analysed — also those after a `return` — in a
+# child scope in which the parameters are defined; the function itself is defined in the enclosing scope, which is the
+# analyser's scope again afterwards.  (Body of three statements with the return in the middle: bounded list length.)
+# =================================================================================================
+FV, FDEFS = [], []
+
+
+def _fvisit(ex, a):
+    FV.append((a.node, ex.args_ns.self.current_scope))
+    return None
+
+
+def _fdefine(ex, a):
+    FDEFS.append((a.self, a.symbol))
+    return None
+
+
+def _func_post(a, res):
+    body = a.node.body
+    outer = a.old.self.current_scope
+    outer_obj = outer._obj if hasattr(outer, "_obj") else outer
+    if len(FV) != len(body) or any(v[0] is not s for v, s in zip(FV, body)):
+        return False
+    scopes = {id(v[1]) for v in FV}
+    if len(scopes) != 1 or FV[0][1] is outer_obj:
+        return False
+    inner = FV[0][1]
+    in_outer = [d for d in FDEFS if d[0] is outer_obj]
+    in_inner = [d for d in FDEFS if d[0] is inner]
+    return (len(in_outer) == 1 and in_outer[0][1].name == a.node.name and [d[1].name for d in in_inner] == ["p", "q"]
+            and a.self.current_scope is outer_obj)
+
+
+_PARAM_T = lambda n, t: ty.TObj("TypedParam", only=("TypedParam",), ftypes=(("name", ty.TConcrete(n)), ("type_name", ty.TConcrete(t))))  # noqa: E731
+CONTRACTS.append(Contract(
+    qualname=AN + "visit_FuncDecl",
+    params={"self": ty.TObj("SemanticAnalyzer", only=("SemanticAnalyzer",)),
+            "node": ty.TObj("FuncDecl", only=("FuncDecl",), ftypes=(
+                ("name", ty.TConcrete("f")), ("params", ty.TTuple((_PARAM_T("p", "Signal"), _PARAM_T("q", "int")))),
+                ("body", ty.TTuple((ty.TObj("Statement", only=("ExprStmt",)), ty.TObj("ReturnStmt", only=("ReturnStmt",), ftypes=(("expr", ty.TObj("Expr", only=("IdentifierExpr",))),)),
+                                    ty.TObj("Statement", only=("DeclStmt",)))))))},
+    requires=[("(reset)", lambda a: (FV.clear(), FDEFS.clear()) and True), ("the analyser has a current scope", lambda a: a.self.current_scope is not None)],
+    ensures=[("every body statement (also after the return) is analysed in the function's child scope with the parameters defined; scope restored", _func_post)],
+    uses={"SemanticAnalyzer.visit": Contract(qualname=AN + "visit", params={"self": ty.TOpaque("s"), "node": ty.TOpaque("n")}, effect=_fvisit, verify=False, note="records (statement, scope)"),
+          "SymbolTable.create_child_scope": Contract(qualname="dsl_compiler/src/semantic/symbol_table.py::SymbolTable.create_child_scope", params={"self": ty.TOpaque("s")}, effect=_child_eff, verify=False, note="fresh child scope"),
+          "SymbolTable.define": Contract(qualname="dsl_compiler/src/semantic/symbol_table.py::SymbolTable.define", params={"self": ty.TOpaque("s"), "symbol": ty.TOpaque("y")}, effect=_fdefine, verify=False, note="proved above; records (scope, symbol)"),
+          "SemanticAnalyzer._type_name_to_value_info": "skip", "SemanticAnalyzer._param_type_name_to_symbol_type": "skip",
+          "SemanticAnalyzer._infer_function_return_type": "skip", "ProgramDiagnostics.error": "skip"},
+    dynamic_types={"self": {"diagnostics": ty.TObj("ProgramDiagnostics", only=("ProgramDiagnostics",)), "current_scope": ty.TObj("SymbolTable", only=("SymbolTable",)),
+                            "_analyzing_functions": ty.TConcrete(set())}},
+    properties=("C14", "C15"), min_obligations=1, no_replay=True, note="body: statement; return; statement"))
